@@ -12,6 +12,7 @@ mod c04;
 mod c05;
 mod hist;
 mod c06;
+mod c07;
 mod asm;
 mod machine;
 mod grammar;
@@ -50,6 +51,7 @@ fn main() {
         "C04" => "C04",
         "C05" => "C05",
         "C06" => "C06",
+        "C07" => "C07",
         _ => usage(),
     };
     let ctx = Ctx::new(prop, tier, seed);
@@ -60,6 +62,7 @@ fn main() {
         "C04" => c04::run(&ctx),
         "C05" => c05::run(&ctx),
         "C06" => c06::run(&ctx),
+        "C07" => c07::run(&ctx),
         _ => unreachable!(),
     }
     std::process::exit(ctx.finish());
